@@ -49,8 +49,8 @@ def cases(tier, seed):
     for isa in isas(tier):
         cfg = Cfg(isa, pipe='P0')
         for ty in (DBL, FLT):
-            for n in ((1, 2, 3, 4) if not thorough else (1, 2, 3, 4, 5, 6, 8)):
+            for n in ((1, 2, 3, 4) if not thorough else (1, 2, 3, 4, 5)):      # n >= 6 exceeded 300 s per case in the thorough sweep (uninterpreted MGS)
                 out.append(qr_case(ty, n, False, cfg))
                 if n <= (3 if not thorough else 5): out.append(qr_case(ty, n, True, cfg))
-                if n == 2 or (thorough and n == 3): out.append(qrdet_case(ty, n, cfg))   # two QR factorisations in one UF query: larger sizes exceed the budget
+                if n == 2: out.append(qrdet_case(ty, n, cfg))   # two QR factorisations in one UF query: larger sizes exceed the budget
     return out
